@@ -1,5 +1,6 @@
 import M3d.Basic
 import M3d.Model.Partition
+import M3d.Model.C2F
 import M3d.Gen.McTable
 /-! Line-protocol handler for C12. Core-only.
 
@@ -55,6 +56,40 @@ def handleMs (ws : List String) : Option String := do
   if b.size ≠ nx * ny then none
   let mesh := msMesh Gen.msTable (nx - 1) (ny - 1) (lab2 b nx ny)
   some (msetHash (mesh.map fun s => [s.1.1, s.1.2, s.2.1, s.2.2]))
+
+/-- `msc2f nx ny bits m cnx cny cbits tag…` : `MarchingSquaresC2F` with `bigDelta = m·smallDelta`; fine
+lattice `nx × ny` POINTS, coarse lattice `cnx × cny` points (both start one spacing below `s.Min()`).
+The driver itself evaluates "the coarse spacing sees every feature" with reach one coarse cell
+(`M3d.C2F.seenAll2 m m`); when it holds the answer is the PLAIN fine mesh
+(`M3d.C12.c2f_ms_sound` + `M3d.C2FMarginTie.ms_total_margin_covers`), otherwise `undemanded` (the
+harness only emits cases for which it holds, so `undemanded` shows up as a disagreement). -/
+def handleMsC2F (ws : List String) : Option String := do
+  let nx :: ny :: bits :: m :: cnx :: cny :: cbits :: _ := ws | none
+  let nx ← nx.toNat?; let ny ← ny.toNat?; let m ← m.toNat?; let cnx ← cnx.toNat?; let cny ← cny.toNat?
+  let b := bitsOf bits
+  let cb := bitsOf cbits
+  if b.size ≠ nx * ny || cb.size ≠ cnx * cny || m == 0 then none
+  if !M3d.C2F.seenAll2Fast m m (lab2 b nx ny) (lab2 cb cnx cny) (nx - 1) (ny - 1) (cnx - 1) (cny - 1) then
+    some "undemanded"
+  else
+    let mesh := msMesh Gen.msTable (nx - 1) (ny - 1) (lab2 b nx ny)
+    some (msetHash (mesh.map fun s => [s.1.1, s.1.2, s.2.1, s.2.2]))
+
+/-- `mcc2f nx ny nz bits m cnx cny cnz cbits tag…` : `MarchingCubesC2F`, as `msc2f`. -/
+def handleMcC2F (ws : List String) : Option String := do
+  let nx :: ny :: nz :: bits :: m :: cnx :: cny :: cnz :: cbits :: _ := ws | none
+  let nx ← nx.toNat?; let ny ← ny.toNat?; let nz ← nz.toNat?; let m ← m.toNat?
+  let cnx ← cnx.toNat?; let cny ← cny.toNat?; let cnz ← cnz.toNat?
+  let b := bitsOf bits
+  let cb := bitsOf cbits
+  if b.size ≠ nx * ny * nz || cb.size ≠ cnx * cny * cnz || m == 0 then none
+  if !M3d.C2F.seenAll3Fast m m (lab3 b nx ny nz) (lab3 cb cnx cny cnz) (nx - 1) (ny - 1) (nz - 1)
+      (cnx - 1) (cny - 1) (cnz - 1) then
+    some "undemanded"
+  else
+    let mesh := mcMesh Gen.mcTable (nx - 1) (ny - 1) (nz - 1) (lab3 b nx ny nz)
+    some (msetHash (mesh.map fun t =>
+      [t.1.1, t.1.2.1, t.1.2.2, t.2.1.1, t.2.1.2.1, t.2.1.2.2, t.2.2.1, t.2.2.2.1, t.2.2.2.2]))
 
 /-- `dc nx ny nz bits tag…` : two faces per active lattice edge. -/
 def handleDc (ws : List String) : Option String := do
@@ -143,6 +178,8 @@ def handleAll (ws : List String) : Option String :=
   match ws with
   | "mc" :: rest => handleMc rest
   | "ms" :: rest => handleMs rest
+  | "msc2f" :: rest => handleMsC2F rest
+  | "mcc2f" :: rest => handleMcC2F rest
   | "dc" :: rest => handleDc rest
   | "rast" :: rest => handleRast rest
   | "split" :: rest => handleSplit rest
